@@ -422,6 +422,39 @@ pub(crate) fn calculate_token_for_partition_key(
     Ok(partitioner_hasher.finish())
 }
 
+/// Verification hooks: read/construct the private hasher state, no logic.
+#[cfg(feature = "scylla-verif")]
+pub(crate) mod verif_hooks {
+    use super::Murmur3PartitionerHasher;
+    use std::num::Wrapping;
+
+    pub(crate) fn murmur3_state(h: &Murmur3PartitionerHasher) -> (usize, [u8; 16], i64, i64) {
+        (h.total_len, h.buf, h.h1.0, h.h2.0)
+    }
+
+    pub(crate) fn murmur3_from_state(
+        total_len: usize,
+        buf: [u8; 16],
+        h1: i64,
+        h2: i64,
+    ) -> Murmur3PartitionerHasher {
+        Murmur3PartitionerHasher {
+            total_len,
+            buf,
+            h1: Wrapping(h1),
+            h2: Wrapping(h2),
+        }
+    }
+
+    pub(crate) fn murmur3_hash_16_bytes(h: &mut Murmur3PartitionerHasher, k1: i64, k2: i64) {
+        h.hash_16_bytes(Wrapping(k1), Wrapping(k2))
+    }
+
+    pub(crate) fn murmur3_fmix(k: i64) -> i64 {
+        Murmur3PartitionerHasher::fmix(Wrapping(k)).0
+    }
+}
+
 #[cfg(test)]
 mod tests {
     use rand::Rng;
